@@ -14,12 +14,15 @@ import (
 	"encoding/hex"
 	"fmt"
 	"math/rand"
+	"os"
+	"path/filepath"
 	"strings"
 	"sync"
 	"sync/atomic"
 
 	"github.com/icon-project/goloop/common/db"
 	"github.com/icon-project/goloop/common/log"
+	"github.com/icon-project/goloop/common/trie/cache"
 
 	"verif/lib/ev"
 	tg "verif/lib/triegen"
@@ -38,7 +41,7 @@ func init() {
 			return 144
 		},
 		Batches: func(t string) int { return 16 },
-		Rule:    "each case = 20 sequential histories + 1 concurrent scenario. Sequential history: 0-39 prefill sets, then 60-100 ops (set new/overwrite/same value, delete present/absent, get present/absent, snapshot, flush, reload by root hash as immutable or as the continuing mutable, clear-cache on mutable/snapshot, reset to a snapshot, mutable-from-immutable) on keys of 0-40 bytes from an 8-byte alphabet (prefix-of-other-key, extension, sibling nibble, long shared prefix, 32-byte random) and values of 1-100 bytes, bytes API or object API, lock-step with a Go map; each snapshot is compared in full (ordered iteration, Get of stored and near-miss keys, Filter for several prefixes, Hash nil iff empty) when taken, after later mutations and at the end; final content rebuilt 3x in random order with random snapshot/flush/cache/reload regimes and once as superset-then-delete: all roots must be equal. Concurrent scenario: 8 reader goroutines (Get/iterate/Filter/Hash/GetProof) on one snapshot vs its model while the mutator sets/deletes/snapshots/flushes/clears cache. Non-trivial = distinct sequential history with >=1 delete of a present key, >=1 overwrite, >=1 snapshot re-checked after a later mutation, >=1 flush+reload and >=2 keys at the end.",
+		Rule:    "each case = 20 sequential histories + 1 concurrent scenario. Sequential history: 0-39 prefill sets, then 60-100 ops (set new/overwrite/same value, delete present/absent, get present/absent, snapshot, flush, reload by root hash as immutable or as the continuing mutable, clear-cache on mutable/snapshot, reset to a snapshot, mutable-from-immutable) on keys of 0-40 bytes from an 8-byte alphabet (prefix-of-other-key, extension, sibling nibble, long shared prefix, 32-byte random) and values of 1-100 bytes, bytes API or object API, lock-step with a Go map; each snapshot is compared in full (ordered iteration, Get of stored and near-miss keys, Filter for several prefixes, Hash nil iff empty) when taken, after later mutations and at the end; final content rebuilt 3x in random order with random snapshot/flush/cache/reload regimes and once as superset-then-delete: all roots must be equal. One history in four runs over tries that use a node cache with FILE levels (cache.NewNodeCache(mem 0-2, file 1-3, scratch file); reloads, ClearCache and lookups then go through the file cache) and its root is also compared with a rebuild that uses no cache. Concurrent scenario: 8 reader goroutines (Get/iterate/Filter/Hash/GetProof) on one snapshot vs its model while the mutator sets/deletes/snapshots/flushes/clears cache. Non-trivial = distinct sequential history with >=1 delete of a present key, >=1 overwrite, >=1 snapshot re-checked after a later mutation, >=1 flush+reload and >=2 keys at the end.",
 		MinNonTrivial: func(t string) int {
 			if t == ev.Thorough {
 				return 40000
@@ -49,6 +52,7 @@ func init() {
 			"snapshots", "snapshot_rechecks_after_mutation", "flushes", "reload_immutable", "reload_mutable", "clear_cache_mutable",
 			"clear_cache_snapshot", "reset_to_snapshot", "mutable_from_immutable", "iterations", "filters_nonempty_prefix", "filter_pairs",
 			"canonical_rebuilds", "canonical_superset_delete", "emptied_tries", "object_api_histories", "bytes_api_histories",
+			"histories_with_file_cache", "file_cache_reloads", "concurrent_lazy_value_scenarios", "concurrent_deletes_of_undecoded_leaves",
 			"concurrent_scenarios", "concurrent_reader_checks", "concurrent_mutations", "concurrent_flushes", "concurrent_clear_cache"},
 		Assumptions: []string{"Go map + sort.Strings (byte-lexicographic) is the reference map",
 			"values are non-empty byte strings (an empty value is not a storable value in this trie)",
@@ -242,8 +246,24 @@ func run(c *ev.Ctx) {
 
 func seqHistory(c *ev.Ctx, r *rand.Rand, hno int) {
 	f := tg.Factories[r.Intn(2)]
-	h := &hist{c: c, kind: f.Kind()}
+	plain := f
 	c.Count(f.Kind()+"_api_histories", 1)
+	fileCache := r.Intn(4) == 0
+	if fileCache {
+		// node cache with FILE levels (chain option node_cache "large" has 5 memory + 1 file level);
+		// shallow here so that the small tries of the histories reach the file levels
+		dir, err := os.MkdirTemp("", "c17-nodecache-")
+		if err != nil {
+			c.Violation("harness.mkdtemp", err.Error())
+			return
+		}
+		defer os.RemoveAll(dir)
+		cfg := [][2]int{{0, 1}, {0, 2}, {1, 1}, {1, 2}, {2, 1}, {0, 3}}[r.Intn(6)]
+		f = tg.WithNodeCache(f, cache.NewNodeCache(cfg[0], cfg[1], filepath.Join(dir, "nodes")))
+		c.Count("histories_with_file_cache", 1)
+		c.Distinct("file_cache_configs", fmt.Sprint(cfg))
+	}
+	h := &hist{c: c, kind: f.Kind()}
 	d := db.NewMapDB()
 	kg := tg.NewKeyGen(r)
 	mut := f.NewMutable(d, nil)
@@ -417,6 +437,9 @@ func seqHistory(c *ev.Ctx, r *rand.Rand, hno int) {
 				c.Count("flushes", 1)
 			}
 			nReload++
+			if fileCache {
+				c.Count("file_cache_reloads", 1)
+			}
 			if r.Intn(2) == 0 {
 				h.add(fmt.Sprintf("reload-immutable(%d keys)", len(s.model)), s.s.Hash(), nil)
 				c.Count("reload_immutable", 1)
@@ -505,7 +528,11 @@ func seqHistory(c *ev.Ctx, r *rand.Rand, hno int) {
 	// canonical root: rebuild the same content differently
 	root := final.Hash()
 	for i := 0; i < 3; i++ {
-		got, desc := rebuild(r, f, model, false)
+		rf := f
+		if i == 0 {
+			rf = plain // a history over a file node cache must end at the root of the same pairs built without any cache
+		}
+		got, desc := rebuild(r, rf, model, false)
 		c.Count("canonical_rebuilds", 1)
 		if !bytes.Equal(got, root) {
 			h.viol("root.depends-on-history", map[string]interface{}{"root_of_history": hx(root), "root_of_rebuild": hx(got), "rebuild": desc, "content": modelHex(model)})
@@ -521,7 +548,7 @@ func seqHistory(c *ev.Ctx, r *rand.Rand, hno int) {
 	// the other API kind must give the same root for the same pairs
 	if r.Intn(4) == 0 {
 		f2 := tg.Factories[0]
-		if f == f2 {
+		if plain == f2 {
 			f2 = tg.Factories[1]
 		}
 		got, desc := rebuild(r, f2, model, false)
@@ -632,6 +659,12 @@ func rebuild(r *rand.Rand, f tg.Factory, model map[string][]byte, superset bool)
 
 func concScenario(c *ev.Ctx, r *rand.Rand) {
 	f := tg.Factories[r.Intn(2)]
+	// lazy: object trie reloaded from the database whose nodes are realized but whose
+	// leaf values are still undecoded, shared by the snapshot under read and the mutable
+	lazy := r.Intn(3) == 0
+	if lazy {
+		f = tg.ObjectFactory{}
+	}
 	d := db.NewMapDB()
 	kg := tg.NewKeyGen(r)
 	mut := f.NewMutable(d, nil)
@@ -665,6 +698,16 @@ func concScenario(c *ev.Ctx, r *rand.Rand) {
 	case 4:
 		snap.Flush()
 		snap.ClearCache()
+	}
+	if lazy {
+		prep, prepName = 3, "flushed+reloaded-by-hash+nodes-realized-values-undecoded"
+		snap.Flush()
+		snap = f.NewImmutable(d, snap.Hash())
+		for k := range snapModel {
+			snap.GetProof([]byte(k)) // walks and realizes the path; does not decode the value
+		}
+		mut = f.MutableFrom(snap)
+		c.Count("concurrent_lazy_value_scenarios", 1)
 	}
 	if prep != 3 && r.Intn(3) == 0 {
 		mut = f.MutableFrom(snap)
@@ -749,7 +792,21 @@ func concScenario(c *ev.Ctx, r *rand.Rand) {
 	nMut := 150 + r.Intn(150)
 	var lastSnap tg.Snap
 	var lastModel map[string][]byte
+	var delOrder []string
+	if lazy { // the writer first deletes the snapshot's keys, each once, while the readers decode them
+		delOrder = append(delOrder, keys...)
+		r.Shuffle(len(delOrder), func(i, j int) { delOrder[i], delOrder[j] = delOrder[j], delOrder[i] })
+	}
 	for i := 0; (i < nMut || (atomic.LoadInt32(&checks) < 240 && i < 20000)) && atomic.LoadInt32(&failed) == 0; i++ {
+		if len(delOrder) > 0 {
+			k := delOrder[0]
+			delOrder = delOrder[1:]
+			mut.Delete([]byte(k))
+			delete(model, k)
+			c.Count("concurrent_mutations", 1)
+			c.Count("concurrent_deletes_of_undecoded_leaves", 1)
+			continue
+		}
 		switch x := r.Intn(100); {
 		case x < 45:
 			var k []byte
